@@ -146,3 +146,27 @@ package middleware
 //@   inv loop 1: r.OnRetryHook != nil ==> (forall j int :: 0 <= j && j < retryNum - 1 ==> arg(HOOK, 0, old(calls(HOOK)) + j) == j + 1 && arg(HOOK, 1, old(calls(HOOK)) + j) == sret(NB, 0, old(ncalls(NB)) + j)) [hook-log]
 //@   assert @call:h#2: recvs(timer) == old(recvs(timer)) + retryNum && ncalls(TA) == old(ncalls(TA)) + retryNum && sarg(TA, 0, ncalls(TA) - 1) == sret(NB, 0, ncalls(NB) - 1) && ncalls(NB) == old(ncalls(NB)) + retryNum [waits-for-the-backoff-timer-before-each-retry]
 //@   panics-ensures panicked(H, calls(H) - 1) [only-the-handler-panics]
+
+// ---- delay on error (C19) ----
+
+//@ spec nextDelay(d *DelayOnError, s string) int := (s != "" && parseok(s)) ? (trunc(real(parsedur(s)) * d.Multiplier) <= d.MaxInterval ? trunc(real(parsedur(s)) * d.Multiplier) : d.MaxInterval) : d.InitialInterval
+
+//@ func (*DelayOnError).applyDelay
+//@   requires d != nil && msg != nil && msg.Metadata != nil
+//@   requires real(1) <= d.Multiplier && 0 <= d.MaxInterval && real(d.MaxInterval) * d.Multiplier < real(9223372036854775807) [stated-bound-no-overflow]
+//@   requires msg.Metadata[delay.DelayedForKey] != "" && parseok(msg.Metadata[delay.DelayedForKey]) ==> 0 <= parsedur(msg.Metadata[delay.DelayedForKey]) && parsedur(msg.Metadata[delay.DelayedForKey]) <= d.MaxInterval [previous-delay-within-the-cap]
+//@   nopanic
+//@   ensures msg.Metadata[delay.DelayedForKey] == durstr(nextDelay(d, old(msg.Metadata[delay.DelayedForKey]))) [delay-is-min-of-previous-times-multiplier-and-cap]
+//@   ensures msg.Metadata[delay.DelayedUntilKey] == timefmt(timeadd(timeutc(nowval(old(ncalls(NOW)))), nextDelay(d, old(msg.Metadata[delay.DelayedForKey]))), "2006-01-02T15:04:05Z07:00") [until-agrees-with-for]
+//@   ensures forall k string :: k != delay.DelayedUntilKey && k != delay.DelayedForKey ==> has(msg.Metadata, k) == old(has(msg.Metadata, k)) && msg.Metadata[k] == old(msg.Metadata[k]) [other-keys-untouched]
+//@   modifies map(msg.Metadata)
+
+//@ func (*DelayOnError).Middleware$1
+//@   requires msg != nil && h != nil && d != nil && msg.Metadata != nil
+//@   requires real(1) <= d.Multiplier && 0 <= d.MaxInterval && real(d.MaxInterval) * d.Multiplier < real(9223372036854775807)
+//@   requires msg.Metadata[delay.DelayedForKey] != "" && parseok(msg.Metadata[delay.DelayedForKey]) ==> 0 <= parsedur(msg.Metadata[delay.DelayedForKey]) && parsedur(msg.Metadata[delay.DelayedForKey]) <= d.MaxInterval
+//@   callee H = h
+//@   ensures calls(H) == old(calls(H)) + 1 && result0 == ret(H, 0, old(calls(H))) && result1 == ret(H, 1, old(calls(H))) [result-passed-through]
+//@   ensures ret(H, 1, old(calls(H))) == nil ==> metaKept(msg) [success-untouched]
+//@   ensures ret(H, 1, old(calls(H))) != nil ==> msg.Metadata[delay.DelayedForKey] == durstr(nextDelay(d, old(msg.Metadata[delay.DelayedForKey]))) [failure-stamps-the-next-delay]
+//@   panics-ensures panicked(H, old(calls(H))) [only-the-handler-panics]
